@@ -71,6 +71,9 @@ type Request struct {
 
 	keepBodyBuffer bool
 
+	// Set when a streamed body was released before it was read to its end.
+	bodyStreamUndrained bool
+
 	// Used by Server to indicate the request was received on a HTTPS endpoint.
 	// Client/HostClient shouldn't use this field but should depend on the uri.scheme instead.
 	isTLS bool
@@ -1548,6 +1551,7 @@ func (req *Request) ReadBody(r *bufio.Reader, contentLength, maxBodySize int) (e
 // then ErrBodyTooLarge is returned.
 func (req *Request) ContinueReadBodyStream(r *bufio.Reader, maxBodySize int, preParseMultipartForm ...bool) error {
 	var err error
+	req.bodyStreamUndrained = false
 	contentLength := req.Header.ContentLength()
 	if contentLength > 0 {
 		if len(preParseMultipartForm) == 0 || preParseMultipartForm[0] {
@@ -2410,6 +2414,8 @@ func (req *Request) closeBodyStream() error {
 		err = bsc.Close()
 	}
 	if rs, ok := req.bodyStream.(*requestStream); ok {
+		// Remember that a part of the body is still on the connection.
+		req.bodyStreamUndrained = req.bodyStreamUndrained || !rs.drained()
 		releaseRequestStream(rs)
 	}
 	req.bodyStream = nil
